@@ -2,6 +2,7 @@ import PyPhysim.Proofs.C01Detect
 import PyPhysim.Proofs.C01Psk
 import PyPhysim.Proofs.C01QamReal
 import PyPhysim.Proofs.C01Relabel
+import PyPhysim.Generated.C01Formulas
 
 /-!
 # C01 — modulation is invertible; detection picks the nearest constellation symbol
@@ -159,6 +160,38 @@ theorem qam_constellation (k : Nat) (hk : 1 ≤ k) :
   refine ⟨table, ht, by rw [hp.length_eq, hlen], hp.nodup_iff.mpr (qam_natural_nodup _ hL), ?_⟩
   rw [(hp.map _).sum_eq, qam_natural_energy _ hL]
   push_cast; ring
+
+/-- Tie to the source: the grid coordinates, the storage index, the average-energy
+    expression and the PSK phase expression re-translated from `fundamental.py` on every run
+    are the ones of the model the constellation theorems are about (BPSK literal = `[1,-1]`). -/
+theorem generated_constellation_matches_model :
+    (∀ (L ii jj : Nat), jj < L →
+      qamGridPoint L (Int.toNat (Generated.C01.qamIndex L jj ii))
+        = (Generated.C01.qamRe L jj ii, Generated.C01.qamIm L jj ii)) ∧
+    (∀ (L : Nat), 1 ≤ L →
+      Generated.C01.qamAvgEnergy (((L * L : Nat) : ℝ)) =
+        (((L * L - 1 : Nat) : ℝ) * ((2 : Nat) : ℝ)) / ((3 : Nat) : ℝ)) ∧
+    (∀ (M k : Nat) (φ : ℝ), pskNaturalPoint M k φ =
+      (Real.cos (Generated.C01.pskPhase M k φ), Real.sin (Generated.C01.pskPhase M k φ))) ∧
+    Generated.C01.bpskPoints = [1, -1] := by
+  refine ⟨?_, ?_, ?_, rfl⟩
+  · intro L ii jj hj
+    have hL : 0 < L := by omega
+    have e : Generated.C01.qamIndex L jj ii = ((ii * L + jj : Nat) : Int) := by
+      simp [Generated.C01.qamIndex]
+    rw [e, Int.toNat_natCast]
+    have hm : (ii * L + jj) % L = jj := by
+      rw [Nat.mul_comm, Nat.mul_add_mod]; exact Nat.mod_eq_of_lt hj
+    have hd : (ii * L + jj) / L = ii := by
+      rw [Nat.mul_comm, Nat.mul_add_div hL, Nat.div_eq_of_lt hj, Nat.add_zero]
+    simp only [qamGridPoint, hm, hd, Generated.C01.qamRe, Generated.C01.qamIm, Prod.mk.injEq]
+    constructor <;> ring
+  · intro L hL
+    have h1 : 1 ≤ L * L := by nlinarith
+    simp only [Generated.C01.qamAvgEnergy]
+    rw [Nat.cast_sub h1]
+  · intro M k φ
+    simp only [pskNaturalPoint, Generated.C01.pskPhase, Trig.cos, Trig.sin, Trig.pi]
 
 /-- non-vacuity of the detection theorems: a two-point constellation over ℚ -/
 example : demod ([(1, 0), (-1, 0)] : List (ℚ × ℚ)) (-3/10, 7) = 1 := by decide +kernel
